@@ -658,6 +658,11 @@ impl Add for Natural {
                         vec.push(lower);
                     }
                 }
+                if vec.len() != vec.capacity() {
+                    // `len` was one too large: the second-most significant
+                    // digit has its most significant bit set
+                    vec.push(0);
+                }
             } else {
                 vec.extend_from_slice(&l_digits[..start_digit]);
                 let mut lower = 0;
